@@ -26,6 +26,7 @@ func main() {
 	suffix := flag.String("suffix", "Zq", "suffix appended to every local name")
 	only := flag.String("only", "", "comma-separated base names of the files to rewrite (default all)")
 	mirror := flag.Bool("mirror", false, "instead of renaming: write every comparison a < b as b > a (and <=, >, >= likewise)")
+	shuffle := flag.Bool("shuffle", false, "instead of renaming: reverse the order of the clauses of every switch over constants (no fallthrough) and every type switch over concrete types")
 	flip := flag.Bool("flip", false, "instead of renaming: write every `if c { A } else { B }` as `if !(c) { B } else { A }`")
 	flag.Parse()
 	if *dst == "" {
@@ -74,7 +75,7 @@ func main() {
 				}
 				return o.Parent() != p.Types.Scope() && o.Parent() != types.Universe && o.Name() != "_"
 			}
-			if *mirror || *flip {
+			if *mirror || *flip || *shuffle {
 				ast.Inspect(f, func(nd ast.Node) bool {
 					switch x := nd.(type) {
 					case *ast.BinaryExpr:
@@ -82,6 +83,43 @@ func main() {
 							m := map[token.Token]token.Token{token.LSS: token.GTR, token.GTR: token.LSS, token.LEQ: token.GEQ, token.GEQ: token.LEQ}
 							if op, ok := m[x.Op]; ok {
 								x.X, x.Y, x.Op = x.Y, x.X, op
+								n++
+							}
+						}
+					case *ast.SwitchStmt:
+						if *shuffle && x.Tag != nil {
+							safe := true
+							for _, cl := range x.Body.List {
+								cc := cl.(*ast.CaseClause)
+								for _, e := range cc.List {
+									if tv, ok := p.TypesInfo.Types[e]; !ok || tv.Value == nil {
+										safe = false
+									}
+								}
+								if k := len(cc.Body); k > 0 {
+									if b, ok := cc.Body[k-1].(*ast.BranchStmt); ok && b.Tok == token.FALLTHROUGH {
+										safe = false
+									}
+								}
+							}
+							if safe && len(x.Body.List) > 1 {
+								reverseClauses(x.Body)
+								n++
+							}
+						}
+					case *ast.TypeSwitchStmt:
+						if *shuffle {
+							safe := true
+							for _, cl := range x.Body.List {
+								for _, e := range cl.(*ast.CaseClause).List {
+									tv, ok := p.TypesInfo.Types[e]
+									if !ok || !tv.IsType() || types.IsInterface(tv.Type) {
+										safe = false // nil, or an interface type that may overlap with other cases
+									}
+								}
+							}
+							if safe && len(x.Body.List) > 1 {
+								reverseClauses(x.Body)
 								n++
 							}
 						}
@@ -169,4 +207,14 @@ func main() {
 		}
 	}
 	fmt.Printf("renamed %d identifier occurrences\n", n)
+}
+
+// reverseClauses reverses the clause order while keeping every clause at a
+// source position that preserves its comments: positions are cleared so that
+// the printer lays the clauses out afresh.
+func reverseClauses(b *ast.BlockStmt) {
+	l := b.List
+	for i, j := 0, len(l)-1; i < j; i, j = i+1, j-1 {
+		l[i], l[j] = l[j], l[i]
+	}
 }
